@@ -4,6 +4,7 @@ import MosnVerif.Lemmas.StageManager
 import MosnVerif.Lemmas.H2GoAway
 import MosnVerif.Lemmas.ShutdownVirtual
 import MosnVerif.Lemmas.TransferLookup
+import MosnVerif.Lemmas.UpgTiming
 /-!
 # C11 — graceful shutdown and hot upgrade lose no requests (property theorems only; level `other`)
 
@@ -433,5 +434,53 @@ example : (smRun (smInit false)
     = [1, 2, 3, 4, 5, 6, 13, 6, 8, 9, 10, 11] := by decide
 -- without the guard the claim is false: an Upgrade notice during start-up lets the state go down again
 example : ¬ monoRev (smRun (smInit false) [.boot none false false, .boot none false false, .notice actUpgrade none false, .boot none false false]).hist := by decide
+
+
+/-! ## hot upgrade: long-lived connections are handed over before the old process exits -/
+section UpgTimingProps
+open MosnVerif.Model.UpgTiming MosnVerif.Gen.UpgTiming
+
+/-- **start_aligns_transfer_timeout**: on EVERY start path (cold or inherited; `setOnStart` is the regenerated path
+condition of the call in `Mosn.TransferConnection`) and for every configured graceful_timeout (0 = absent),
+`network.TransferTimeout` ends up equal to `server.GracefulTimeout`. -/
+theorem start_aligns_transfer_timeout (inherited : Bool) (cfg : Nat) :
+    transferTimeoutAfterStart inherited cfg = graceful cfg :=
+  transferTimeout_eq_graceful inherited cfg
+
+/-- **handover_before_exit**: for every graceful timeout (unbounded), every read timeout `R`, every start path and
+every random draw `r` of the read loop, a transferable connection is handed over strictly before the old process's
+exit timer `WaitConnectionsDone(GracefulTimeout)` fires — even when the stop signal and the expiry of the hand-over
+timer are each noticed a full read timeout late. -/
+theorem handover_before_exit (inherited : Bool) (cfg R r : Nat)
+    (hr : r < randBound (transferTimeoutAfterStart inherited cfg)) :
+    handoverLatest (transferTimeoutAfterStart inherited cfg) r R < lifetime (graceful cfg) R := by
+  rw [transferTimeout_eq_graceful] at *
+  unfold handoverLatest lifetime transferInstant waitConnectionsDone
+  unfold randBound at hr
+  omega
+
+example : (5 : Nat) < randBound (transferTimeoutAfterStart false 5000) := by decide
+example : handoverLatest (transferTimeoutAfterStart false 5000) 4999 15000 = 39999 ∧ lifetime (graceful 5000) 15000 = 40000 := by decide
+
+/-- the executable form used by the driver agrees: every start fits -/
+theorem start_fits (inherited : Bool) (cfg R : Nat) :
+    fits (transferTimeoutAfterStart inherited cfg) (graceful cfg) R = true := by
+  have hp := graceful_pos cfg
+  rw [transferTimeout_eq_graceful]
+  unfold fits handoverLatest lifetime transferInstant waitConnectionsDone randBound
+  simp
+  omega
+
+/-- **default_schedule_misses_exit** (negation witness for a start that leaves the 30 s default in place): with a
+graceful timeout below 15 s some draw of the read loop lands at or after the exit even if nothing is noticed late. -/
+theorem default_schedule_misses_exit (g : Nat) (hg : g < 15000) :
+    ∃ r, r < randBound defaultTransferTimeoutMs ∧
+      lifetime g defaultConnReadTimeoutMs ≤ transferInstant defaultTransferTimeoutMs r := by
+  refine ⟨2 * g, ?_, ?_⟩ <;>
+    simp only [randBound, defaultTransferTimeoutMs, lifetime, waitConnectionsDone, defaultConnReadTimeoutMs, transferInstant] <;> omega
+
+example : fits defaultTransferTimeoutMs 5000 defaultConnReadTimeoutMs = false := by decide
+
+end UpgTimingProps
 
 end MosnVerif.Props.C11
